@@ -161,7 +161,7 @@ const OTHER_RULES: [&str; 8] = [
 // container serialized in hash order would have >= 24 possible orders.
 // ------------------------------------------------------------------------------------------------
 
-const WIDE: [&[&str]; 26] = [
+const WIDE: [&[&str]; 27] = [
     // 4 fusable rules in one token bucket of `filters`
     &["wide/aa", "wide/bb", "wide/cc", "wide/dd"],
     // one bucket, two fusion groups (the optimizer groups them in a hash map)
@@ -216,6 +216,9 @@ const WIDE: [&[&str]; 26] = [
     // under another option order / another letter case is another line): whatever is done about the
     // repetition inside the fused rule, its pattern list is written out as it stands
     &["wide/pp$image,script", "wide/pp$script,image", "wide/qq$image,script", "wide/rr$image,script", "WIDE/qq$image,script", "wide/ss$script,image"],
+    // a plain tagged rule that occurs twice, next to tagged rules that share its tokens (which token
+    // a rule is filed under depends on how often each token occurs in the list)
+    &["/aaa/bbb-$tag=t1", "/aaa/ddd-$tag=t1", "/aaa/ddd-$tag=t1", "/bbb/eee-$tag=t1"],
     // 4 generichide exceptions
     &["@@||g1.com^$generichide", "@@||g2.com^$generichide", "@@||g3.com^$generichide", "@@||g4.com^$generichide"],
 ];
